@@ -686,6 +686,7 @@ func (e Engine) runOnce(t *testing.T, ctx *kit.Ctx, sc *kit.Scenario[Config, Op]
 	blocked := make([]bool, ntask)
 	parked := make([]string, ntask) // where each task is parked (its last yield tag)
 	selfHeld := make([]bool, ntask) // the task was seen taking a FIB lock it already holds
+	inBatch := make([]bool, ntask)  // between fib.batch and fib.batch-end: holds the FIB write lock
 	for i := range alive {
 		alive[i] = true
 	}
@@ -697,6 +698,7 @@ func (e Engine) runOnce(t *testing.T, ctx *kit.Ctx, sc *kit.Scenario[Config, Op]
 			blocked = append(blocked, false)
 			parked = append(parked, "")
 			selfHeld = append(selfHeld, false)
+			inBatch = append(inBatch, false)
 			inRib = append(inRib, false)
 			ribYielded = append(ribYielded, false)
 		}
@@ -808,6 +810,7 @@ func (e Engine) runOnce(t *testing.T, ctx *kit.Ctx, sc *kit.Scenario[Config, Op]
 		step++
 		res.Steps++
 		if msg.done {
+			inBatch[pick] = false
 			alive[pick] = false
 			nalive--
 			if msg.panicV != nil {
@@ -823,7 +826,13 @@ func (e Engine) runOnce(t *testing.T, ctx *kit.Ctx, sc *kit.Scenario[Config, Op]
 			}
 			continue
 		}
+		if parked[pick] == "fib.batch-end" {
+			inBatch[pick] = false // it was parked at the end of the batch, still holding the lock; now it has moved on
+		}
 		parked[pick] = msg.tag
+		if msg.tag == "fib.batch" {
+			inBatch[pick] = true
+		}
 		if base, ok := strings.CutSuffix(msg.tag, "+held"); ok {
 			// The task is about to take a FIB lock that someone holds right now. Every other task is parked at a
 			// known place; if none of them is inside a FIB critical section the holder is this task itself.
@@ -835,8 +844,11 @@ func (e Engine) runOnce(t *testing.T, ctx *kit.Ctx, sc *kit.Scenario[Config, Op]
 					if i == pick || !alive[i] {
 						continue
 					}
+					if inBatch[i] {
+						other = true // parked somewhere inside a FIB batch: it holds the FIB write lock
+					}
 					switch parked[i] {
-					case "fib.read", "fib.mut":
+					case "fib.read", "fib.mut", "fib.batch":
 						other = true
 					case "fib.lock", "blocked:fib.lock":
 						writer = i
